@@ -41,4 +41,6 @@ def run(ctx):
     ctx.rule("R-LOCAL-DEFINED", "no path of a DM14 client / server / facade function reads a local before assigning it", floor=30)
     GN.local_defined(ctx, [f for f in ctx.prog.funcs.values() if f.cls is not None and f.cls.name in ("Dm14Query", "DM14Server", "MemoryAccess")],
                      why=" - the operation ends with an exception instead of its result")
+    ctx.rule("R-DM14-STEPS", "every step of a read / write transaction that brings both sides back to idle is taken (server, client, facade)", floor=12)
+    D.dm14_steps(ctx)
     return "DM14/DM15/DM16 layouts by sibling composition, size thresholds, chunk slicing, told arguments and idle reset"
